@@ -155,24 +155,10 @@ def run(chk, F, tier):
     # constructors mirror the constants
     rule = "C17.R3"
     um = F.find1(self_ty="Unit", name="mul", trait_ref="Mul<f64>")
-    for name, shape in (("from_mjd_in_time_scale", [15020.0]), ("from_jde_in_time_scale", [15020.0, 2400000.5])):
-        fn = F.find1(self_ty="Epoch", name=name, trait="")
-        eng.hooks_by_id = {um["id"]: rec_hook(D, "unit*f64")}
-        finals, args = D.run(fn)
-        eng.hooks_by_id = {}
-        for st in finals:
-            if st.end != "return":
-                continue
-            rm = recs(st, "unit*f64")
-            exp = args[0].t
-            for k in shape:
-                exp = ("op", "Sub", exp, ("c", k))
-            alt = ("op", "Sub", args[0].t, ("c", sum(shape))) if len(shape) > 1 else None
-            ok = len(rm) == 1 and scale_name(eng, st, rm[0][0][0]) == "Day" and isinstance(rm[0][0][1], Flt) and rm[0][0][1].t in (exp, alt)
-            r = st.ret
-            ok = ok and isinstance(r, Struct) and r.fs[0] is rm[0][1] and same_scale(eng, st, r.fs[1], args[1])
-            chk.ob(rule, "Epoch::%s" % name, "Epoch{(days-%s)*Unit::Day, scale}" % "-".join(str(x) for x in shape), ok,
-                   "float term shape mirrors the to_ sibling's constant", detail=None if ok else (repr(rm[0][0][1]) if rm else "no call"))
+    # per scale: duration = (days - K) * Unit::Day - (reading of the scale's clock at its reference epoch, since 1900); the same
+    # evaluation as C10.R6 (an MJD/JD count is relative to 1900, an epoch's duration to its scale's own reference epoch)
+    from .c10 import Reader, r6_constructors
+    r6_constructors(chk, F, Reader(F), rule=rule)
     wrappers = [("from_mjd_tai", "from_mjd_in_time_scale", "TAI"), ("from_mjd_utc", "from_mjd_in_time_scale", "UTC"),
                 ("from_mjd_gpst", "from_mjd_in_time_scale", "GPST"), ("from_mjd_qzsst", "from_mjd_in_time_scale", "QZSST"),
                 ("from_mjd_gst", "from_mjd_in_time_scale", "GST"), ("from_mjd_bdt", "from_mjd_in_time_scale", "BDT"),
